@@ -113,6 +113,7 @@ type File struct {
 	Namespace  string     `json:"namespace"`
 	Autoescape string     `json:"autoescape,omitempty"`
 	Aliases    []string   `json:"aliases,omitempty"` // namespaces aliased by their last segment
+	CRLF       bool       `json:"crlf,omitempty"`    // the line ends between declarations (namespace, soydoc, templates) are CR LF
 	Templates  []Template `json:"templates"`
 }
 
